@@ -152,13 +152,6 @@ func runIn(c *kernel.Ctx) {
 	for _, v := range vals {
 		gen.KnowGenesis(v.CoinBase)
 	}
-	// Which of the two behaviours does this tree have when a contract is created
-	// at an address that already holds issued tokens? Observed once on a scratch
-	// copy of the state (never committed). If the tokens are dropped the ledger
-	// follows and the oracle reports every occurrence under a stable key
-	// (destroyed/tokens-at-address-when-contract-created-there); if they are
-	// kept, full conservation is demanded.
-	gen.L.CreationDropsTokens = creationDropsTokens(rs.T.Chain.App.GetLatestStateDB().Copy())
 	// genesis supply from the trie itself (not from what the generator asked for)
 	tot, _ := rs.enumerate()
 	for t, v := range tot {
@@ -188,15 +181,6 @@ func runIn(c *kernel.Ctx) {
 		rs.smp.Blocks = rs.smp.Blocks[:4]
 	}
 	c.Sample(rs.smp)
-}
-
-func creationDropsTokens(st *state.StateDB) bool {
-	var addr, tok common.Address
-	copy(addr[:], crypto.Keccak256([]byte("c06-probe-address"))[:20])
-	copy(tok[:], crypto.Keccak256([]byte("c06-probe-token"))[:20])
-	st.AddTokenBalance(addr, tok, big.NewInt(1))
-	st.CreateAccount(addr)
-	return st.GetTokenBalance(addr, tok).Sign() == 0
 }
 
 func nz(v *big.Int) *big.Int {
@@ -399,6 +383,11 @@ func (rs *rigState) oracle(block *types.Block, receipts types.Receipts) bool {
 	}
 
 	tot, accts := rs.enumerate()
+	atCreation := L.TokensAtCreation
+	L.TokensAtCreation = nil
+	for range atCreation {
+		c.Probe("tokens-at-address-of-new-contract")
+	}
 	// 1. global conservation per token over ALL accounts of the trie
 	tokens := map[common.Address]bool{}
 	for t := range tot {
@@ -427,14 +416,6 @@ func (rs *rigState) oracle(block *types.Block, receipts types.Receipts) bool {
 			c.Probe("lost-after-selfdestruct")
 			want.Sub(want, lost)
 		}
-		if gone := nz(L.LostAtCreation[t]); gone.Sign() > 0 {
-			// issued tokens held by an address at the moment a contract was created there
-			if c.Violate("conservation", "destroyed/tokens-at-address-when-contract-created-there", "height %d: %v of token %s held by an address vanished when a contract was created at that address (the coin it held was kept)", h, gone, tokName(t)) {
-				return false
-			}
-			c.Probe("lost-at-creation")
-			want.Sub(want, gone)
-		}
 		if forged := nz(L.Forged[t]); forged.Sign() > 0 {
 			// hidden value a deliberately unbalanced transaction claimed without owning it
 			if c.Violate("inflation", "inflation/short-ring-pseudo-out-unbound", "height %d: a ring-size-1 spend claiming %v more %s than its input holds was committed: supply grows by that amount", h, forged, tokName(t)) {
@@ -448,6 +429,12 @@ func (rs *rigState) oracle(block *types.Block, receipts types.Receipts) bool {
 			class := "created"
 			if d.Sign() < 0 {
 				class = "destroyed"
+			}
+			if at := nz(atCreation[t]); d.Sign() < 0 && at.Sign() > 0 {
+				// the block created a contract at an address that held this token
+				c.Violate("conservation", "destroyed/tokens-at-address-when-contract-created-there", "height %d token %s: %v sat at an address when a contract was created there; all accounts %v + hidden %v = %v, expected %v (diff %v): tokens held by the address must survive the creation like its coin does",
+					h, tokName(t), at, nz(tot[t]), L.HiddenSupply(t), have, want, d)
+				return false
 			}
 			c.Violate("conservation", "supply/"+class, "height %d token %s: all accounts %v + hidden %v = %v, expected genesis %v + issued %v - self-destructed %v = %v (diff %v)",
 				h, tokName(t), nz(tot[t]), L.HiddenSupply(t), have, nz(rs.genesis[t]), nz(L.Issued[t]), nz(L.Destroyed[t]), want, d)
